@@ -274,7 +274,7 @@ def stress(chk, w2c2, quick):
     chk.observe('contended_ops_total', total_ops, 'set')
     if total_ops < (2 * 10**6 if quick else 4 * 10**7):
         chk.inconclusive('only %d contended operations executed' % total_ops)
-    chk.sample({'part': 'b', 'scenarios': ['add1', 'sub1', 'xchg', 'cas', 'bits', 'lanes', 'litmus-sb', 'litmus-mp'], 'threads': [2, 4, 8, 16]})
+    chk.sample({'part': 'b', 'scenarios': ['add1', 'sub1', 'xchg', 'cas', 'bits', 'lanes', 'lock', 'litmus-sb', 'litmus-mp'], 'threads': [2, 4, 8, 16]})
 
 
 def main(chk):
